@@ -76,4 +76,31 @@ def handlerNames : List String := (CtxChains.chains.map (·.1)).eraseDups
 def prefixFree (keys : List String) : Bool :=
   keys.all fun a => keys.all fun b => a == b || !(a.toList.isPrefixOf b.toList)
 
+/-! ### the head of a request: everything decided before a byte of the body is parsed -/
+
+inductive Head
+  | reject (status : Nat)
+  | parser (key : String)
+  deriving DecidableEq, Repr
+
+/-- does the handler constructor read this query parameter? (regenerated inventory) -/
+def readsQuery (handler param : String) : Bool :=
+  IngestParams.reads.contains ("controllerv1." ++ handler, "query", param)
+
+/-- the order of the code: the pre-request steps (`Content-Encoding` switch of the overall middleware — `ceKnown` —, then
+    the handler's own parameter step) run before `DoParse` looks at the Content-Type -/
+def headOf (handler : String) (ceKnown : Bool) (ct : String) (q : String → String) : Head :=
+  if !ceKnown then .reject 400
+  else
+    let own : Option Nat :=
+      if readsQuery handler "precision" then (match precision (q "precision") with | .error s => some s | .ok _ => none)
+      else if readsQuery handler "from" then (match profileParams q with | .error s => some s | .ok _ => none)
+      else none
+    match own with
+    | some s => .reject s
+    | none =>
+      match selectParser (parserKeys handler) ct with
+      | .ok k => .parser k
+      | .error s => .reject s
+
 end Qryn.IngestParams
